@@ -72,7 +72,7 @@ package db
 // jr_pos is the read position of the handle opened on it.
 //@ ghost jr_exists bool
 //@ ghost jr_len bv64
-//@ ghost jr_pos bv64
+//@ ghost jr_pos bv64 env
 //@ ghost jr_bytes (Array (_ BitVec 64) (_ BitVec 8))
 
 // jrnl_hot(bytes, n): the journal has a complete first header: 28 bytes, the magic, a sector size in
